@@ -16,13 +16,15 @@ def german_classes(method: str, rng: random.Random, per_class: int = 2):
     short accounts, raising paths."""
     out, seen = [], {}
     tries = 0
-    while tries < 6000 and sum(len(v) for v in seen.values()) < per_class * 8:
+    while tries < 6000 and sum(len(v) for v in seen.values()) < per_class * 14:
         tries += 1
         k = rng.choice([3, 5, 6, 8, 9, 10, 10])
         a = "".join(rng.choice(R.DIGITS) for _ in range(k)).zfill(10)
         v = G.verdict(method, a)
         r = G.facts(method, a).get("r")
-        cls = (v, "r0" if r == 0 else "r1" if r == 1 else "rx", "len10" if a[0] != "0" else "short")
+        cls = (v, "r0" if r == 0 else "r1" if r == 1 else "rx", "len10" if a[0] != "0" else "short",
+               # drivers of method-specific branches (88: d3=9, 61: d9=8, 26/13/76: leading 00, 24/68: first digits)
+               a[2] == "9", a[8] == "8", a[:2] == "00", a[0] in "3456" or a[0] == "9")
         if len(seen.setdefault(cls, [])) < per_class:
             seen[cls].append(a)
     for cls, accs in sorted(seen.items()):
@@ -136,6 +138,20 @@ def build(rng: random.Random, size: str = "quick"):
             if i == 0:
                 b = N.force_valid(cc, b) or b
             add({"fn": "iban", "text": R.make_iban(cc, b), "kw": {"validate_bban": True}}, f"nat:{cc}")
+    # the same digit string as body of every national-algorithm country (equal component concatenations)
+    for k in range(2 if size == "quick" else 8):
+        D = "".join(rng.choice(R.DIGITS) for _ in range(40))
+        for cc in N.COUNTRIES:
+            spec = table.get(cc)
+            if not spec or N.LENGTHS.get(cc) != spec["bban_length"]:
+                continue
+            fb = N.force_valid(cc, N.body_fill(cc, D, spec["bban_length"]))
+            if fb and R.matches_spec(spec["bban_spec"], fb):
+                add({"fn": "iban", "text": R.make_iban(cc, fb), "kw": {"validate_bban": True}}, f"natD:{k}")
+                pos = data.positions(spec)
+                if cc in N.COMPUTING and "account_code" in pos:
+                    add({"fn": "generate", "country": cc, "bank": fb[pos["bank_code"][0] : pos["bank_code"][1]] if "bank_code" in pos else "",
+                         "account": fb[pos["account_code"][0] : pos["account_code"][1]], "branch": fb[pos["branch_code"][0] : pos["branch_code"][1]] if "branch_code" in pos else ""}, f"natD:{k}")
     # German public-API calls for two banks of the same method
     first = {k[1]: v[0] for k, v in idx.items() if k[0] == "DE"}
     by_m = {}
